@@ -27,7 +27,8 @@ REQUIRED = {"deliveries": {"quick": 4000, "thorough": 150000},
             "disposed_calls": {"quick": 300, "thorough": 8000},
             "falsy_delivered": {"quick": 1000, "thorough": 30000},
             "falsy_initial_cases": {"quick": 500, "thorough": 20000},
-            "set:initial_values": 7}
+            "set:initial_values": 7,
+            "runs:free": {"quick": 1000, "thorough": 20000}, "free_injected_yields": {"quick": 3000, "thorough": 60000}}
 
 
 def units(tier: str, seed: int) -> list[dict]:
